@@ -1,0 +1,43 @@
+//go:build verif
+
+package files
+
+// Contracts for package files, read by /verif/govc (comment-only file, build tag verif).
+
+// ---- BufferedFile: a 4096-byte window onto v.file.data ----
+
+//@ pred bfInv(v *BufferedFile) := v != nil && v.file != nil && v.bufferSize == 4096 && len(v.buffer) == 4096 && v.buffer.ref != 0
+//@    && v.fileSize == len(v.file.data) && 0 <= v.minOffset && v.minOffset <= v.maxOffset && v.maxOffset <= v.fileSize
+//@    && v.maxOffset - v.minOffset <= 4096 && v.minOffset <= v.currentOffset
+//@    && (forall k :: { v.buffer[k] } 0 <= k && k < v.maxOffset - v.minOffset ==> v.buffer[k] == sat(v.file.data, v.minOffset + k))
+
+//@ func NewBufferedFile [C07 C09]
+//@   requires file != nil && file.pos == 0 && fileSize == len(file.data)
+//@   modifies file.pos
+//@   ensures inv: bfInv(result) && fresh(result) && !result.closed && result.currentOffset == 0 && result.file == file
+
+//@ func (*BufferedFile).Seek [C07 C09]
+//@   requires bfInv(v) && !v.closed && (whence == 0 || whence == 1)
+//@   let newOff := whence == 0 ? offset : v.currentOffset + offset
+//@   requires newOff >= 0
+//@   modifies v.minOffset, v.maxOffset, v.currentOffset, elems(v.buffer)
+//@   ensures inv: bfInv(v)
+//@   ensures pos: result.1 == nil && result.0 == newOff && v.currentOffset == newOff
+//@   ensures window: newOff < v.fileSize ==> v.minOffset <= newOff && newOff < v.maxOffset
+
+//@ func (*BufferedFile).Read [C07 C09]
+//@   requires bfInv(v) && !v.closed && p.ref != v.buffer.ref
+//@   let c0 := v.currentOffset
+//@   requires c0 + len(p) <= v.fileSize
+//@   modifies v.minOffset, v.maxOffset, v.currentOffset, elems(v.buffer), elems(p)
+//@   ensures inv: bfInv(v)
+//@   ensures count: result.0 == len(p) && result.1 == nil && v.currentOffset == c0 + len(p)
+//@   ensures bytes: forall k :: { p[k] } 0 <= k && k < len(p) ==> p[k] == sat(v.file.data, c0 + k)
+//@   loop 1 invariant inv: bfInv(v) && !v.closed
+//@   loop 1 invariant progress: 0 <= outputOffset && outputOffset <= len(p) && v.currentOffset == c0 + outputOffset
+//@   loop 1 invariant copied: forall k :: { p[k] } 0 <= k && k < outputOffset ==> p[k] == sat(v.file.data, c0 + k)
+//@   loop 1 decreases 2 * (len(p) - outputOffset) + ((v.currentOffset >= v.maxOffset || v.currentOffset < v.minOffset) ? 1 : 0)
+//@   loop 2 invariant inv: bfInv(v) && !v.closed
+//@   loop 2 invariant progress: 0 <= outputOffset && outputOffset <= len(p) && v.currentOffset == c0 + outputOffset
+//@   loop 2 invariant copied: forall k :: { p[k] } 0 <= k && k < outputOffset ==> p[k] == sat(v.file.data, c0 + k)
+//@   loop 2 decreases len(p) - outputOffset
